@@ -248,6 +248,10 @@ func guardedBy(parents map[ast.Node]ast.Node, n ast.Node, match func(cond ast.Ex
 			if cur == x.Body && match(x.Cond, true) {
 				return true
 			}
+			// the else branch (and the else-if chain hanging from it) stands under the negated condition
+			if x.Else != nil && cur == ast.Node(x.Else) && match(x.Cond, false) {
+				return true
+			}
 			// `cond && use` inside condition handled by caller if needed
 		case *ast.BlockStmt:
 			for _, st := range x.List {
